@@ -8,22 +8,23 @@ CONSTANTS ScenName, OpsName      \* select a scenario set / alphabet by name (cf
 \* intent i is always signed by its own key i; "+" marks extra signers
 Flat1   == [par |-> <<0, 1>>,       sig |-> <<{1}, {2}>>]
 Flat1x  == [par |-> <<0, 1>>,       sig |-> <<{1, 2}, {2}>>]          \* root also signed by the child's key
+Flat1y  == [par |-> <<0, 1>>,       sig |-> <<{1}, {2, 1}>>]          \* child also signed by the root's key (may withdraw from the root's account)
 Flat2   == [par |-> <<0, 1, 1>>,    sig |-> <<{1}, {2}, {3}>>]
 Chain2  == [par |-> <<0, 1, 2>>,    sig |-> <<{1}, {2}, {3}>>]        \* root -> 2 -> 3
 Chain2x == [par |-> <<0, 1, 2>>,    sig |-> <<{1, 3}, {2}, {3, 1}>>]  \* grandchild also signed by the root's key
 Tree3   == [par |-> <<0, 1, 2, 1>>, sig |-> <<{1}, {2}, {3}, {4}>>]   \* root -> 2 -> 3, root -> 4
 Solo    == [par |-> <<0>>,          sig |-> <<{1}>>]
 
-ScenSmall == {Flat1, Flat1x}
-ScenMid   == {Flat1, Flat1x, Flat2, Chain2, Chain2x, Solo}
-ScenAll   == {Flat1, Flat1x, Flat2, Chain2, Chain2x, Tree3, Solo}
+ScenSmall == {Flat1, Flat1y}
+ScenMid   == {Flat1, Flat1x, Flat1y, Flat2, Chain2, Chain2x, Solo}
+ScenAll   == {Flat1, Flat1x, Flat1y, Flat2, Chain2, Chain2x, Tree3, Solo}
 
 OpsCore == {"W", "T", "TA", "R", "D", "AW", "YC", "YP", "VP"}
 OpsFull == AllOps \cup {"NOYP", "POISON"}
 OpsMove == {"W", "TA", "D", "YC", "YP", "POISON"}
 
 ScenByName == CASE ScenName = "small" -> ScenSmall [] ScenName = "mid" -> ScenMid [] ScenName = "all" -> ScenAll
-                [] ScenName = "flat1" -> {Flat1} [] ScenName = "chain" -> {Chain2, Chain2x} [] ScenName = "tree" -> {Tree3, Flat2}
+                [] ScenName = "quick2" -> {Chain2, Flat2} [] ScenName = "flat1" -> {Flat1} [] ScenName = "chain" -> {Chain2, Chain2x} [] ScenName = "tree" -> {Tree3, Flat2}
 OpsByName == CASE OpsName = "core" -> OpsCore [] OpsName = "full" -> OpsFull [] OpsName = "move" -> OpsMove
 
 \* one line per finished behaviour (round 3 reached); round 3 itself (the identical transaction again)
